@@ -19,9 +19,18 @@ import (
 )
 
 func scenarioPinFault() int {
-	run := ev.New("C06", "fault_enumeration",
-		"per round: INVITE rotated onto the TCP backend of a service and answered by it (dialog pinned there), the TCP backend then disappears {connections reset / closed, listener closed / kept}, 1-3 in-dialog requests and one new request follow, the backend comes back; "+
-			"oracle = every copy of these requests seen at any socket carries exactly one more Via entry than was sent (the listener's, fresh branch, on top) and a Record-Route list that grew by at most the policy's one entry; the sentinel still passes; distinct = (fault, service configuration, method) cells")
+	prop := *flagProp
+	oracle := map[string]string{
+		"C06": "oracle = every copy of these requests seen at any socket carries exactly one more Via entry than was sent (the listener's, fresh branch, on top) and a Record-Route list that grew by at most the policy's one entry; the sentinel still passes",
+		"C15": "oracle = once the backend is back, three further in-dialog requests (still well inside the 1200 s lifetime, no BYE answered, no NOTIFY terminated) arrive exactly once each at the backend the dialog is pinned to",
+	}[prop]
+	if oracle == "" {
+		fmt.Println("HARNESS-ERROR pinfault: -prop must be C06 or C15")
+		return 2
+	}
+	run := ev.New(prop, "fault_enumeration",
+		"per round: INVITE rotated onto the TCP backend of a service and answered by it (dialog pinned there), the TCP backend then disappears {connections reset / closed, listener closed / kept}, 1-3 in-dialog requests and one new request follow, the backend comes back, three more in-dialog requests follow; "+
+			oracle+"; distinct = (fault, service configuration, method) cells")
 	w, err := wire.NewWorld(*flagBin, *flagDir, wire.Opts{Services: 4, Backends: 2, TCPBackend: true})
 	if err != nil {
 		fmt.Println("HARNESS-ERROR world:", err)
@@ -36,7 +45,7 @@ func scenarioPinFault() int {
 	seq := 0
 	next := func(p string) string { seq++; return fmt.Sprintf("%s%d", p, seq) }
 	branches := map[string]string{}
-	seenOut, pinned := 0, 0
+	seenOut, pinned, afterOK := 0, 0, 0
 	send := func(svc int, m *sip.Msg, id string) []*wire.Obs {
 		p := wire.Path{UA: 0, Svc: svc, Proto: "udp"}
 		w.Send(p, m.Bytes(), id)
@@ -156,17 +165,21 @@ func scenarioPinFault() int {
 			method := []string{"INFO", "BYE", "UPDATE", "INVITE", "MESSAGE"}[g.R.Intn(5)]
 			m := mk(id, method, bTag)
 			send(svc, m, id)
-			good = judge(svc, m, id, "in-dialog "+method, fault)
+			if prop == "C06" {
+				good = judge(svc, m, id, "in-dialog "+method, fault)
+			}
 			if good {
 				run.Eval(fmt.Sprintf("%s|svc%d|%s|copies%d", fault, svc, method, len(w.Net.ForCase(id))))
 			}
 		}
 		if good {
 			id := next("n")
+			dialogCallID := callID
 			callID = next("pf") + "@vf"
 			m := mk(id, "OPTIONS", "")
+			callID = dialogCallID
 			send(svc, m, id)
-			if judge(svc, m, id, "new request", fault) {
+			if prop != "C06" || judge(svc, m, id, "new request", fault) {
 				run.Eval(fmt.Sprintf("%s|svc%d|new-request", fault, svc))
 			}
 		}
@@ -189,10 +202,33 @@ func scenarioPinFault() int {
 		if !w.Barrier(wire.Path{UA: 0, Svc: svc, Proto: "udp"}) {
 			run.Violation("the proxy stopped relaying after a backend failed", map[string]any{"service": svc, "fault": fault})
 		}
+		// the dialog goes on after the outage
+		for k := 0; k < 3 && good; k++ {
+			id := next("a")
+			method := []string{"INFO", "UPDATE", "MESSAGE", "OPTIONS"}[g.R.Intn(4)]
+			m := mk(id, method, bTag)
+			obs := send(svc, m, id)
+			if prop == "C06" {
+				good = judge(svc, m, id, "in-dialog "+method+" after the backend came back", fault)
+				continue
+			}
+			var at []string
+			for _, o := range obs {
+				at = append(at, o.Ep)
+			}
+			if len(obs) != 1 || obs[0].Ep != sv.BeTCP[0].Name {
+				run.Violation("after its backend had been unreachable for a moment the dialog is no longer pinned to it although its lifetime has not passed", map[string]any{"service": svc, "fault": fault, "pinned_to": sv.BeTCP[0].Name, "request_seen_at": at, "requests_sent_during_the_outage": n, "request": string(m.Bytes())})
+				good = false
+				continue
+			}
+			afterOK++
+			run.Eval(fmt.Sprintf("%s|svc%d|after|%s", fault, svc, method))
+		}
 		w.Net.Trim()
 	}
 	run.Observe("dialogs_pinned_to_a_backend_that_then_failed", pinned)
 	run.Observe("copies_of_later_requests_seen_and_judged", seenOut)
+	run.Observe("in_dialog_requests_after_the_outage_at_the_pinned_backend", afterOK)
 	if pinned < rounds/3 {
 		run.Violation("observed-nothing", map[string]any{"pinned": pinned})
 	}
